@@ -56,9 +56,9 @@ def gen_cases(tier, seed):
     for rep in range(2 if q else 10):
         cases.append({"type": "storage", "norb": int(rng.choice([3, 4])), "nocc": int(rng.choice([1, 2])), "s": int(rng.integers(1 << 30)),
                       "level": "sampler", "group": "st-%d" % rep, "cost": 25})
-    for rep in range(1 if q else 3):
+    for rep in range(2 if q else 6):
         cases.append({"type": "storage", "norb": 4, "nocc": 2, "s": int(rng.integers(1 << 30)), "level": "driver",
-                      "ad_mode": [None, "forward", "reverse"][rep % 3], "group": "std-%d" % rep, "cost": 60})
+                      "ad_mode": ["reverse", None, "forward"][rep % 3], "group": "std-%d" % rep, "cost": 60})
     return cases
 
 
@@ -244,7 +244,7 @@ def run_storage(case):
     else:
         nw, dt = 6, 0.01
         pair, mo = _closed_shell_pair(case, rng, dt, nw)
-        rows = {}
+        rows, rdm = {}, {}
         for wt in ("rhf", "uhf"):
             P = pair[wt]
             smp = sampling.sampler(n_prop_steps=3, n_ene_blocks=1, n_sr_blocks=2, n_blocks=3)
@@ -257,12 +257,26 @@ def run_storage(case):
                 MPI = config.not_MPI()
                 e, err = driver.afqmc(dict(P["ham_data_raw"]), P["ham"], P["prop"], P["trial"], dict(P["wave_data"]), smp, None, options, MPI)
             rows[wt] = np.loadtxt("samples_raw.dat").reshape(-1, 3)
+            if case.get("ad_mode") == "reverse":
+                rdm[wt] = np.load("rdm1_afqmc.npz")["rdm1"]
+                os.remove("rdm1_afqmc.npz")
         d = float(np.max(np.abs(rows["rhf"][:, 1] - rows["uhf"][:, 1])))
         dw = float(np.max(np.abs(rows["rhf"][:, 0] - rows["uhf"][:, 0])))
         sc = max(1.0, float(np.max(np.abs(rows["rhf"][:, 1]))))
         events.append(judge("storage/driver-block-energies", d / sc, 2e-6, key + "/block-energies", ad_mode=case.get("ad_mode"),
                             rhf=rows["rhf"][:, 1].tolist(), uhf=rows["uhf"][:, 1].tolist()))
         events.append(judge("storage/driver-block-weights", dw / max(1.0, float(np.max(rows["rhf"][:, 0]))), 2e-6, key + "/block-weights"))
+        if case.get("ad_mode") is not None:
+            # the AD observable column (response to the one-body operator handed to the driver) is a reported output too
+            do = float(np.max(np.abs(rows["rhf"][:, 2] - rows["uhf"][:, 2])))
+            events.append(judge("storage/driver-block-observables", do / max(1.0, float(np.max(np.abs(rows["rhf"][:, 2])))), 2e-5, key + "/block-observables",
+                                rhf=rows["rhf"][:, 2].tolist(), uhf=rows["uhf"][:, 2].tolist()))
+        if case.get("ad_mode") == "reverse":
+            # rdm1_afqmc.npz: the spin-resolved AD density matrix must not depend on the storage format either
+            dr = float(np.max(np.abs(rdm["rhf"] - rdm["uhf"])))
+            events.append(judge("storage/driver-rdm1", dr, 2e-5 * max(1.0, float(np.max(np.abs(rdm["uhf"])))), key + "/rdm1",
+                                trace_restricted=[float(np.trace(rdm["rhf"][0])), float(np.trace(rdm["rhf"][1]))],
+                                trace_unrestricted=[float(np.trace(rdm["uhf"][0])), float(np.trace(rdm["uhf"][1]))]))
         sample = {"level": "driver", "ad_mode": case.get("ad_mode"), "block_energies_restricted": rows["rhf"][:, 1].tolist(),
                   "block_energies_unrestricted": rows["uhf"][:, 1].tolist()}
     return {"events": events, "nontrivial": True, "sample": sample, "counters": {"storage_cases": 1}}
